@@ -72,7 +72,9 @@ class M(Model):
         super().__init__(b)
         e = b.env
         self.R, self.C, self.A, self.T = int(e.num_rows), int(e.num_cols), int(e.num_agents), int(e.time_limit)
-        self.pen = float(e.penalty_per_timestep)
+        # the configured value (menu) where the entry sets one: "the penalty returned at each timestep" is what
+        # the caller passed, not whatever the instance stored
+        self.pen = float(b.meta["penalty"]) if "penalty" in b.meta else float(e.penalty_per_timestep)
 
     # ------------------------------------------------------------------ helpers
     def _inside(self, r, c):
